@@ -162,7 +162,7 @@ impl Prop for C01 {
         ]
     }
     fn cases(tier: Tier) -> u32 {
-        tier.pick(4_000, 200_000)
+        tier.pick(4_000, 800_000)
     }
     fn strategy(tier: Tier) -> BoxedStrategy<BFCase> {
         bf_case(params(tier), 50)
